@@ -531,6 +531,16 @@ class Acc(Stream):
 from . import C12 as _C12
 
 
+from . import C11 as _C11
+
+
+class EmulatorFirstMessages(_C11.SuciProc):
+    """the REGISTRATION REQUEST and the DEREGISTRATION REQUEST the real RegisterUE / DeregisterUE put on the wire (subscriber
+    identities of every MSIN length, both MNC lengths), read by the TS 24.501 reference parser: the mobile identity IE must be
+    where 8.2.6 / 8.2.12 put it, with the length it announces, and hold the intended SUCI"""
+    name = "emulator-first-messages"
+
+
 class AcceptExtract(_C12.NasWell):
     """PDU SESSION ESTABLISHMENT ACCEPT messages (inside protected DL NAS TRANSPORT) built by the independent encoder of the
     C12 check — any 5GSM cause, optional IEs of every format before and after the PDU address — read by the emulator's own
@@ -541,8 +551,8 @@ class AcceptExtract(_C12.NasWell):
 class C09(Check):
     pid = "C09"
     prop_files = ["Properties/C09.v"]
-    extra_targets = ["Model/NasCorr.vo", "Model/NasLayout.vo", "Model/NasRefCorr.vo", "Model/NasAccCheck.vo", "Model/Extract.vo", "Spec/SessionMsgs.vo"]
-    streams = [Ctor(), Ctor(dev=True), RefEnc(), RefEnc(dev=True), Acc(), AcceptExtract()]
+    extra_targets = ["Model/NasCorr.vo", "Model/NasLayout.vo", "Model/NasRefCorr.vo", "Model/NasAccCheck.vo", "Model/Extract.vo", "Spec/SessionMsgs.vo", "Model/C11Check.vo"]
+    streams = [Ctor(), Ctor(dev=True), RefEnc(), RefEnc(dev=True), Acc(), AcceptExtract(), EmulatorFirstMessages()]
     trusted = ["Coq 8.16.1 kernel incl. vm_compute (no native_compute)", "no axioms (Print Assumptions: closed under the global context)",
                "Spec/TS24501Tables.v: TS 24.501 Rel-15 tables 8.2.x/8.3.x transcribed from memory (rows marked uncertain are not compared)",
                "translator harness/gen_nas.go and the interpreter semantics of Model/NasCodec.v (tied by C08's streams)",
